@@ -1137,6 +1137,12 @@ Proof.
   - eapply rc_opassign; eassumption.
   - eapply rc_call; eassumption.
   - eapply rc_anonfn; eassumption.
+  - exfalso. match goal with H : iter_gate _ _ _ |- _ => apply H; apply pol_all end.
+  - exfalso. match goal with H : iter_gate _ _ _ |- _ => apply H; apply pol_all end.
+  - exfalso. match goal with H : iter_gate _ _ _ |- _ => apply H; apply pol_all end.
+  - exfalso. match goal with H : iter_gate _ _ _ |- _ => apply H; apply pol_all end.
+  - exfalso. match goal with H : iter_gate _ _ _ |- _ => apply H; apply pol_all end.
+  - exfalso. match goal with H : iter_gate _ _ _ |- _ => apply H; apply pol_all end.
 Qed.
 
 Lemma rline_S n : rec_at n -> rline_at n -> rec_at (S n) -> rline_at (S n).
@@ -1178,8 +1184,9 @@ Qed.
 
 (* [recreate_body] preserves typing (with narrowing): every typed closure literal satisfies
    the property the closure-creation rules need *)
-Theorem recreate_ok_all powf : @policy_ok all_policy powf.
+Theorem recreate_ok_all powf pre : @policy_ok all_policy powf pre.
 Proof.
+  split; [|intros W0 G i Hg; exfalso; apply Hg; exact I].
   intros W0 G nm ps body r G' Ts _ Wf Hnm Hb Hend W sc HE HG.
   destruct (wf_fun_parts _ _ Wf) as [Wps _].
   assert (HR : renv W sc [fn_layer nm ps r] (closure_env nm ps r ++ G) (closure_env nm ps r)).
@@ -1207,3 +1214,4 @@ Proof.
   - destruct C.
   - split; [discriminate|]. split; [intros y Hy; discriminate Hy|]. intros b Hb'. discriminate Hb'.
 Qed.
+Arguments recreate_ok_all powf {pre}.
